@@ -31,6 +31,7 @@ mod c18;
 mod c19;
 mod c20;
 mod hist;
+mod soup;
 
 use spec::engine::{Monitor, RunCfg, Tier, EXIT_INCONCLUSIVE};
 use spec::record::Recorder;
@@ -75,6 +76,7 @@ impl Monitor for Wrapped {
     fn streams(&self, tier: Tier) -> Vec<spec::engine::StreamSpec> {
         let mut s = self.0.streams(tier);
         s.push(spec::engine::exhaustive("api-contexts", if tier == Tier::Miri { 0 } else { 2 }));
+        s.push(spec::engine::stream("api-soup", tier.n(20, 40_000, 3_000_000)));
         s
     }
     fn run_case(&self, stream: &str, idx: u64, seed: u64, rec: &mut Recorder) {
@@ -84,12 +86,24 @@ impl Monitor for Wrapped {
             }
             return;
         }
+        if stream == "api-soup" {
+            soup::judge_soup(self.0.id(), idx, seed, rec);
+            return;
+        }
         self.0.run_case(stream, idx, seed, rec)
     }
     fn floor(&self, tier: Tier) -> Vec<&'static str> {
         self.0.floor(tier)
     }
     fn replay(&self, case: &str, rec: &mut Recorder) {
+        if let Some(rest) = case.strip_prefix("soup:") {
+            if let Some((i, s)) = rest.split_once(':') {
+                if let (Ok(i), Ok(s)) = (i.parse(), s.parse()) {
+                    soup::judge_soup(self.0.id(), i, s, rec);
+                }
+            }
+            return;
+        }
         self.0.replay(case, rec)
     }
     fn assumptions(&self) -> Vec<&'static str> {
